@@ -75,6 +75,13 @@ class Ref:
                     P, off = self.inmaps[i['name']]
                     rows += A @ P
                     rhs = rhs + A @ off
+                if c['kind'] == 'imp2':
+                    if o is c['outs'][1]:
+                        s1, sz1 = self.off[c['outs'][0]['name']]
+                        rows[:, s1:s1 + sz1] += np.array(c['C'], dtype=float)
+                    D = np.array(c['D'][o['name']], dtype=float)
+                    rows = np.linalg.solve(D, rows)
+                    rhs = np.linalg.solve(D, rhs)
                 if c['kind'] == 'imp':
                     D = np.array(c['D'], dtype=float)
                     rows = np.linalg.solve(D, rows)
@@ -232,7 +239,13 @@ class Ref:
                     P, off = self.inmaps[q['in']]
                     x0 = P[0] @ y + off[0]
                     AP += np.outer(2 * np.array(q['coef']) * x0, P[0])
-                if c['kind'] == 'imp':
+                if c['kind'] == 'imp2':
+                    L[s:s + sz] = -AP
+                    L[s:s + sz, s:s + sz] += np.array(c['D'][o['name']], dtype=float)
+                    if o is c['outs'][1]:
+                        s1, sz1 = self.off[c['outs'][0]['name']]
+                        L[s:s + sz, s1:s1 + sz1] -= np.array(c['C'], dtype=float)
+                elif c['kind'] == 'imp':
                     L[s:s + sz] = -AP
                     L[s:s + sz, s:s + sz] += np.array(c['D'], dtype=float)
                 else:
